@@ -1,6 +1,6 @@
 (* C05: observers are transparent and capture the complete stream at their position. *)
 From Coq Require Import List ZArith Bool.
-From DF Require Import Base.Str Base.Value Frame.Events Frame.Events_proofs.
+From DF Require Import Base.Str Base.Value Frame.Events Frame.Events_proofs Frame.Pull Frame.Pull_proofs.
 Import ListNotations.
 Local Open Scope nat_scope.
 
@@ -39,3 +39,38 @@ Theorem C05_commit_at_end : forall kc s,
   no_fail s -> drive (committing kc s) = (lmap (g_observe kc) s ++ [EEff kc 4], Returned).
 Proof. exact commit_at_end. Qed.
 Print Assumptions C05_commit_at_end.
+
+(* the pull protocol (Frame/Pull.v): the consumer asks for resources and rows in any order, stops reading a resource early
+   or skips it; the observer reads what is left of a resource itself when the consumer moves on (fix 9cf3000) *)
+
+(* invariant over every sequence of requests: the observer's account (resources seen to their end, the current one with
+   its rows seen and still to come, the ones not begun) is the package *)
+Theorem C05_observer_account_invariant : forall (R : Type) (pkg : list (list R)) (ops : list cop),
+  account R (fst (orun R true (start R pkg) ops)) = pkg.
+Proof. exact pull_account_invariant. Qed.
+Print Assumptions C05_observer_account_invariant.
+
+(* so once the consumer has taken the stream to its end, however little it read on the way, the observer has all of it *)
+Theorem C05_observer_complete_for_every_consumer : forall (R : Type) (pkg : list (list R)) (ops : list cop),
+  finished R (fst (orun R true (start R pkg) ops)) = true ->
+  done (fst (orun R true (start R pkg) ops)) = pkg.
+Proof. exact pull_observer_complete. Qed.
+Print Assumptions C05_observer_complete_for_every_consumer.
+
+(* and the consumer is handed, request by request, what it would be handed without the observer *)
+Theorem C05_observer_transparent_for_every_consumer : forall (R : Type) (ops : list cop) (s s' : ost R),
+  view R s = view R s' -> snd (orun R true s ops) = snd (orun R false s' ops).
+Proof. exact pull_observer_transparent. Qed.
+Print Assumptions C05_observer_transparent_for_every_consumer.
+
+(* the premise of completeness is met by the consumers the checks run: k_i rows of resource i, then on *)
+Theorem C05_early_stopping_consumer_complete : forall (R : Type) (pkg : list (list R)) (takes : list nat),
+  length takes = length pkg -> done (fst (orun R true (start R pkg) (reads takes))) = pkg.
+Proof. exact reads_complete. Qed.
+Print Assumptions C05_early_stopping_consumer_complete.
+
+(* an observer that does not read on by itself (the code before the fix) is refuted: two rows, one read *)
+Theorem C05_observer_without_reading_on_refuted : exists (pkg : list (list nat)) takes, length takes = length pkg /\
+  done (fst (orun nat false (start nat pkg) (reads takes))) <> pkg.
+Proof. exact no_drain_refuted. Qed.
+Print Assumptions C05_observer_without_reading_on_refuted.
